@@ -8,7 +8,13 @@ Import ListNotations.
 Section Sampler.
   Context {N : NumOps}.
   Notation V := (@vec N).
-  Notation call := (@call N).
+  Notation call := (@call N (ListVec N)).
+  Notation CMisfit := (@CMisfit N (ListVec N)).
+  Notation CKin := (@CKin N (ListVec N)).
+  Notation CExp := (@CExp N (ListVec N)).
+  Notation CGenMom := (@CGenMom N (ListVec N)).
+  Notation CAccept := (@CAccept N (ListVec N)).
+  Notation CReject := (@CReject N (ListVec N)).
 
   Variable misfit : V -> T N.
   Variable grad : V -> V.
@@ -78,7 +84,7 @@ Section Sampler.
 
   Definition hmc_step (c : hmc_cfg) (i : nat) (s : st) (e : ev) : st * bool :=
     let p0 := genmom (e_z e) in
-    let '(pq, pp, tr1) := propagate kgrad grad corr (h_integ c) (h_steps c) (step s) (e_factor e)
+    let '(pq, pp, tr1) := propagate (ListVec N) kgrad grad corr (h_integ c) (h_steps c) (step s) (e_factor e)
                                     (cur s) p0 (CGenMom :: trace s) in
     let cx := misfit (cur s) in
     let ck := kin p0 in
